@@ -518,3 +518,35 @@ EXTRA_DECLS = [
     ("neg-shift-prec", "int ns1 = 1 << 2 + 3; int ns2 = (1 << 2) + 3; int ns3 = 1 - 2 - 3; int ns4 = 1 - (2 - 3);"),
     ("struct-ptr-fn", "struct S *(*sp1)(struct S *, int (*)(void));"),
 ]
+
+
+def flat_chains():
+    """Unparenthesised chains a OP1 b OP2 c OP3 d over one operator per
+    precedence level (all 1000 triples): the grouping is decided by precedence
+    and associativity alone."""
+    out = []
+    for o1 in BIN_REPR:
+        for o2 in BIN_REPR:
+            for o3 in BIN_REPR:
+                out.append((f"chain:{BIN_LEVEL[o1]}-{BIN_LEVEL[o2]}-{BIN_LEVEL[o3]}",
+                            f"return a {o1} b {o2} c {o3} d;"))
+    # assignment chains with mixed operators, conditional chains
+    for o1 in ("=", "+=", "<<="):
+        for o2 in ("=", "-=", "|="):
+            out.append((f"asgchain:{o1}:{o2}", f"a {o1} b {o2} c; return a;"))
+    out.append(("condchain", "return a ? b : c ? d : a ? b : c;"))
+    out.append(("condchain2", "return a ? b ? c : d : a;"))
+    return out
+
+
+# whole translation units that must not be re-laid out (directives): compared
+# one by one, original text as is
+PRAGMA_TUS = [
+    ("pragma-weak-last-line-no-newline", "int wk(void) { return 1; }\nint user(void) { return wk(); }\n#pragma weak wk"),
+    ("pragma-weak-with-newline", "int wk(void) { return 1; }\n#pragma weak wk\nint user(void) { return wk(); }\n"),
+    ("pragma-pack", "#pragma pack(1)\nstruct PK { char c; int i; } pk = { 1, 2 };\n#pragma pack()\nstruct NP { char c; int i; } np = { 1, 2 };\nunsigned long sz[] = { sizeof(struct PK), sizeof(struct NP) };\n"),
+    ("pragma-pack-operator", "_Pragma(\"pack(1)\")\nstruct PK2 { char c; int i; } pk2 = { 1, 2 };\nunsigned long sz2 = sizeof(struct PK2);\n"),
+    ("pragma-in-function", "int f(int n) { int s = 0;\n#pragma GCC unroll 4\n for (int i = 0; i < n; i++) s += i; return s; }\n"),
+    ("pragma-in-struct", "struct PS { char c;\n#pragma pack(1)\n int i; } ps;\n#pragma pack()\nunsigned long sz3 = sizeof(struct PS);\n"),
+    ("line-directives", "int a1;\n#line 100 \"x.h\"\nint a2 = 2;\n# 7 \"y.h\" 1\nint a3(void) { return a2; }\n"),
+]
